@@ -427,6 +427,30 @@ func main() {
 		w.Close()
 		obs.Stat("cases", len(cases))
 		obs.Stat("resumed", resumed)
+	case "runa":
+		var cases []CaseA
+		tlsh.ReadCases(os.Args[2], func(line []byte) error {
+			var c CaseA
+			if err := json.Unmarshal(line, &c); err != nil {
+				return err
+			}
+			cases = append(cases, c)
+			return nil
+		})
+		recs := make([]RecA, len(cases))
+		tlsh.Parallel(len(cases), func(i int) { recs[i] = runAuto(cases[i]) })
+		w := obs.NewWriter(os.Args[3])
+		for _, r := range recs {
+			w.Write(r)
+		}
+		w.Close()
+		obs.Stat("cases", len(cases))
+	case "runa-one":
+		var c CaseA
+		obs.ReadReplay(os.Args[2], &c)
+		w := obs.NewWriter(os.Args[3])
+		w.Write(runAuto(c))
+		w.Close()
 	case "run-one":
 		var c Case31
 		obs.ReadReplay(os.Args[2], &c)
